@@ -163,7 +163,10 @@ fn display_all_exported_vars(
         if variable.is_exported() {
             let value = variable.value().try_get_cow_str(context.shell);
             if let Some(value) = value {
-                writeln!(context.stdout(), "declare -x {name}=\"{value}\"")?;
+                // Quote the value the way `declare -p` does, so that the line can be read back.
+                let quoted =
+                    brush_core::escape::force_quote(&value, brush_core::escape::QuoteMode::DoubleQuote);
+                writeln!(context.stdout(), "declare -x {name}={quoted}")?;
             } else {
                 writeln!(context.stdout(), "declare -x {name}")?;
             }
